@@ -487,8 +487,9 @@ def separation_verdict(meta, protos):
                 continue
             gap = arc_gap(a, b, length, circular)
             if gap < rule["cutoff"]:
-                # recorded class C03-K7: circular record only (on a linear record the start-sorted adjacent scan of
-                # merge_over_origin is complete)
+                # class of the repaired finding C03-K7 (status fixed: a VIOLATION if it comes back): circular record
+                # only (on a linear record the start-sorted adjacent scan of merge_over_origin is complete; on a
+                # circular one the second, pairwise pass of merge_over_origin now joins what the scan left)
                 cls = "merge_scan_adjacent_only" if circular else "cores_closer_than_cutoff"
                 return cls, (f"rule r{ridx}: two protoclusters with cores {ca} and {cb} are {gap} apart, closer than the "
                              f"cutoff {rule['cutoff']}: not maximal groups")
@@ -545,8 +546,9 @@ def extender_verdict(meta, protos):
 
 
 def window_fills_record(meta):
-    """ input-level class of C03-K8: a circular record on which the cutoff window of some gene with hits covers the
-        whole record, so that _extend_area_location returns one part and circular_origin stays 0 """
+    """ input-level class of the repaired finding C03-K8 (status fixed; only names the VIOLATION class now): a circular
+        record on which the cutoff window of some gene with hits covers the whole record, so that _extend_area_location
+        returns one part - circular_origin used to stay 0 there """
     if not meta["circular"]:
         return False
     length = meta["length"]
@@ -582,7 +584,8 @@ RULE_FULL = ("full pipeline: linear and circular records (2:1 circular), 1-10 si
              "pairwise different (start, end) because the order of equal-key anchors follows set iteration order; fixed "
              "boundary records (last chain exactly one cutoff / one base less from an origin-spanning gene or from the first "
              "chain through the origin; SUPERIORS with a core over the origin and the same genes rotated; an extender-bridged "
-             "chain over the origin; record lengths 4100/4101 around the point where the cutoff window fills the record) run "
+             "chain over the origin; record lengths 4100/4101 around the point where the cutoff window fills the record; the "
+             "repaired classes C03-K8 under 'not' and C03-K7 with the missed merge away from the origin, each also rotated) run "
              "first; plus 1500/12000 'focus' records for apply_extenders and merge_over_origin: one rule 'p0 EXTENDERS ...' "
              "(35 % a second rule), 3-8 short genes with gaps on {0, 1, cutoff/2-51..cutoff/2, cutoff-101, cutoff-100, cutoff-1, "
              "cutoff, cutoff+1, 3 cutoff} (two chains one cutoff apart with an extender gene half way), 20 % long genes starting "
@@ -711,6 +714,17 @@ def run_full(chk, recorded):
                       {"g0": {"p0"}, "g1": {"p1"}, "g2": {"p0"}, "g3": {"p0"}, "g4": {"p0"}}, off))
     for length in (4100, 4101):
         fixed.append((length, win, [("g0", [(100, 200, 1)]), ("g1", [(length - 200, length - 100, 1)])], {"g0": {"p0"}, "g1": {"p1"}}, 0))
+    # regression records of the repaired findings, next to their stored witnesses: C03-K8 under 'not' (the partner gene is
+    # in range only over the origin of a record the cutoff window fills: no anchoring gene) and rotated; C03-K7 in its
+    # second shape, in which the merge that the adjacent-only scan missed does not go over the origin at all (g0 and g2
+    # one cutoff apart, both grown to the extender g1; g0's extension wraps below 0 and g3's beyond the end, so the
+    # sort order is g0, g3, g2 and g2 was never compared with g0), and the same ring read from another origin
+    win_not = "RULE r0 CATEGORY c CUTOFF 2 NEIGHBOURHOOD 0 CONDITIONS p0 and not p1"
+    for off in (0, 2000):
+        fixed.append((4000, win_not, [("g0", [(100, 200, 1)]), ("g1", [(3800, 3900, 1)])], {"g0": {"p0"}, "g1": {"p1"}}, off))
+    for off in (0, 5000, 9000):
+        fixed.append((10000, ext, [("g0", [(900, 1000, 1)]), ("g1", [(1450, 1550, 1)]), ("g2", [(2000, 2100, 1)]), ("g3", [(9400, 9500, 1)])],
+                      {"g0": {"p0"}, "g1": {"p1"}, "g2": {"p0"}, "g3": {"p0"}}, off))
     for length, text, genes, hits, off in fixed:
         genes = rotate_layout(genes, off, length)
         built = genes and build_case(chk, length, True, text, genes, hits, "boundary")
